@@ -12,6 +12,7 @@ import (
 	"reservoir/cache"
 	"reservoir/config"
 	"reservoir/proxy/responder"
+	"reservoir/utils/bytesize"
 	"reservoir/utils/duration"
 	"time"
 )
@@ -25,6 +26,7 @@ type bodyReader struct {
 	pos     int
 	closed  bool
 	failAt  int // -1 never
+	closing bool   // server-side body of a request that asked to close the connection: Close does NOT discard the rest (net/http transfer.go)
 	failErr error  // nil: errOriginAbort
 	onFail  func() // runs when the transfer breaks (e.g. the requesting client's context is cancelled)
 }
@@ -311,17 +313,32 @@ func newEnv(backend int, limit int64) *env {
 	cfg.Proxy.UpstreamDefaultHttps.CommitStaged()
 	vDropPending()
 	e := &env{cfg: cfg, o: &origin{}}
-	var c cache.Cache[cachedRequestInfo]
+	// the proxy is built by the real constructor from the configuration (so that whatever state
+	// NewProxy sets up is there), with the cache it creates picked up for direct inspection
+	cfg.Cache.MaxCacheSize.Stage(bytesize.ByteSize(limit))
+	cfg.Cache.MaxCacheSize.CommitStaged()
+	cfg.Cache.LockShards.Stage(envShards)
+	cfg.Cache.LockShards.CommitStaged()
+	cfg.Cache.CleanupInterval.Stage(duration.Duration(time.Hour))
+	cfg.Cache.CleanupInterval.CommitStaged()
+	cfg.Cache.Memory.MemoryBudgetPercent.Stage(100)
+	cfg.Cache.Memory.MemoryBudgetPercent.CommitStaged()
+	cfg.Cache.File.Dir.Stage("var/pcache")
+	cfg.Cache.File.Dir.CommitStaged()
 	if backend == backendMem {
 		vSetSysMem(1 << 40)
-		e.mem = cache.NewMemoryCache[cachedRequestInfo](cfg, 100, limit, time.Hour, envShards, context.Background())
-		c = e.mem
+		cfg.Cache.Type.Stage(config.CacheTypeMemory)
 	} else {
-		e.fil = cache.NewFileCache[cachedRequestInfo](cfg, "var/pcache", limit, time.Hour, envShards, context.Background())
-		c = e.fil
+		cfg.Cache.Type.Stage(config.CacheTypeFile)
 	}
+	cfg.Cache.Type.CommitStaged()
 	vDropPending()
-	e.p = &Proxy{cache: c, fetch: newFetcher(c, cfg), cfg: cfg}
+	p, err := NewProxy(cfg, nil, context.Background())
+	vAssert(err == nil && p != nil, "c18.accepted-config-cannot-start")
+	vDropPending()
+	e.p = p
+	e.mem, _ = p.cache.(*cache.MemoryCache[cachedRequestInfo])
+	e.fil, _ = p.cache.(*cache.FileCache[cachedRequestInfo])
 	vSetOrigin(e.o.do)
 	return e
 }
@@ -394,7 +411,9 @@ func (e *env) runTunnel(reqs ...*http.Request) []capture {
 			// is left of the previous request's body (neither read to its end nor closed - Close
 			// of a server-side body discards the rest) would be taken for the next request line
 			if b, ok := reqs[i-1].Body.(*bodyReader); ok {
-				vAssert(b.closed || b.pos >= len(b.data), "c10.unread-request-body-left-on-the-tunnel")
+				// (Close of a server-side body discards the rest - unless the request announced
+				// "Connection: close" / HTTP/1.0, for which net/http skips the draining)
+				vAssert(b.pos >= len(b.data) || (b.closed && !b.closing), "c10.unread-request-body-left-on-the-tunnel")
 			}
 		}
 		if i >= len(reqs) {
@@ -404,7 +423,9 @@ func (e *env) runTunnel(reqs ...*http.Request) []capture {
 		i++
 		return r, nil
 	})
-	e.p.ca = stubCA{}
+	if e.p.ca == nil {
+		e.p.ca = stubCA{}
+	}
 	w := &hijackWriter{recWriter: recWriter{h: http.Header{}}, conn: &fakeConn{}}
 	connect := newReq("CONNECT", "o.test:443", "", "", nil)
 	e.p.handleCONNECT(responder.NewHTTPResponder(w), connect)
